@@ -464,3 +464,86 @@ def gen_c13(seed, count):
 
 
 PYGEN['py_c13'] = gen_c13
+
+
+def gen_edges(seed, count):
+    """Paths of the implementation that bin/coverage showed the other generators never reach: a framed but
+    undecodable CONNACK (or a different packet) answering CONNECT; a CONNACK arriving on a live connection; a broker
+    Maximum Packet Size of 1..8 bytes meeting PINGREQ, PUBACK / PUBREC / PUBCOMP and PUBREL (also after a resumed
+    CONNACK that shrinks the limit); operations on the handle afterwards; a reconnect at the end."""
+    out = []
+    bad_connacks = [bytes([0x20, 1, 0]), bytes([0x20, 2, 2, 0]), bytes([0x20, 3, 0, 0, 5]), bytes([0x20, 4, 0, 0, 1, 0x7f]),
+                    bytes([0x20, 0]), bytes([0x90, 3, 0, 1, 0]), bytes([0xD0, 0]), bytes([0x40, 2, 0, 1]),
+                    bytes([0x20, 5, 0, 0, 2, 36, 3]), bytes([0x20, 6, 0, 0, 3, 33, 0, 0]), bytes([0x21, 3, 0, 0, 0]),
+                    bytes([0x20, 3, 1, 0x80, 0]), bytes([0x20, 8, 0, 0, 5, 39, 0, 0, 0, 0])]
+
+    def tail(c, r):
+        for _ in range(r.randint(0, 3)):
+            x = r.random()
+            if x < 0.3:
+                c.publish(b'a', b'p', qos=r.choice([0, 1, 2]))
+            elif x < 0.5:
+                c.poll()
+            elif x < 0.6:
+                c.drive()
+            elif x < 0.7:
+                c.subscribe()
+            elif x < 0.8:
+                c.disconnect()
+            else:
+                c.hd()
+        if r.random() < 0.7:
+            c.connect(connack(r.choice([0, 1])))
+            c.publish(b'a', b'q', qos=r.choice([0, 1]))
+            c.poll()
+
+    for idx in range(count):
+        r = random.Random((seed << 20) ^ idx ^ 0xED6E5)
+        kind = idx % 4
+        c = Case(rx=r.choice([32, 64]), tx=r.choice([64, 128, 256]),
+                 ka=r.choice([1, 2, 3]) if kind == 2 else r.choice([0, 0, 2, 30]))   # kind 2: PINGREQ against the limit
+        if kind == 0:
+            b = r.choice(bad_connacks)
+            if r.random() < 0.3:
+                b = bytes(b[:1]) + bytes([r.randint(0, 6)]) + bytes(r.randint(0, 255) for _ in range(r.randint(0, 6)))
+            c.connect(b)
+            tail(c, r)
+        elif kind == 1:
+            c.connect(connack(0, 0, [(33, r.choice([1, 2, 8]))] if r.random() < 0.3 else ()))
+            if r.random() < 0.6:
+                c.publish(b'a', b'p', qos=r.choice([1, 2]))
+            c.feed(connack(r.choice([0, 1]), r.choice([0, 0, 0x80])), r.choice([0, 0, 10]))
+            (c.poll if r.random() < 0.6 else c.recv)()
+            tail(c, r)
+        else:
+            mps = r.randint(1, 8)
+            ck = connack(0, 0, [(39, mps)])
+            if kind == 2:
+                c.connect(ck)
+                for _ in range(r.randint(1, 3)):
+                    y = r.random()
+                    if y < 0.4:
+                        c.feed(publish(r.choice([1, 2]), r.randint(1, 9), b't', b'x'), r.choice([0, 5]))
+                    elif y < 0.6:
+                        c.feed(ack(6, r.randint(1, 9)), 0)
+                    else:
+                        c.advance(r.choice([500, 1000, 2000, 3000]))
+                    c.poll()
+                c.poll()
+            else:
+                c.connect(connack())
+                c.publish(b'a', b'', qos=2)
+                if r.random() < 0.5:
+                    c.feed(ack(5, 1))
+                    c.poll()
+                c.drop().hd()
+                c.connect(connack(1, 0, [(39, mps)]))
+                if r.random() < 0.6:
+                    c.feed(ack(5, 1))
+                c.poll().poll()
+            tail(c, r)
+        out.append(c.line())
+    return out
+
+
+PYGEN['py_edges'] = gen_edges
